@@ -52,6 +52,12 @@ Star4Descr == { D("Tetrahedral", <<1,2,3,4,NoAtom>>, 1), D("Tetrahedral", <<1,2,
                 D("Tetrahedral", <<1,4,NoAtom,2,3>>, 1) }
 FamStar4LP(kind) == { Star4LP(kind, le, d) : le \in [1..3 -> LigEls], d \in Star4Descr }
 
+Star3LP2(kind, le, d) ==         \* oxygen-like centre with two lone pairs
+   [Mk(kind, (1 :> 8) @@ [k \in 2..3 |-> le[k - 1]], StarBonds(3)) EXCEPT !.ast = (1 :> d)]
+LP2Descr == { D("Tetrahedral", <<1,2,3,NoAtom,NoAtom>>, 1), D("Tetrahedral", <<1,2,3,NoAtom,NoAtom>>, -1),
+              D("Tetrahedral", <<1,NoAtom,3,2,NoAtom>>, 1), D("Tetrahedral", <<1,3,NoAtom,NoAtom,2>>, -1) }
+FamLP2(kind) == { Star3LP2(kind, le, d) : le \in [1..2 -> LigEls], d \in LP2Descr }
+
 EtheneBonds == ({1,3} :> Bd("none")) @@ ({2,3} :> Bd("none")) @@ ({3,4} :> Bd("none"))
                @@ ({4,5} :> Bd("none")) @@ ({4,6} :> Bd("none"))
 Ethene6(kind, le, d) ==          \* 1,2 on atom 3; 5,6 on atom 4
@@ -62,6 +68,29 @@ EtheneDescr == { D("PlanarBond", <<1,2,3,4,5,6>>, 0), D("PlanarBond", <<1,2,3,4,
                  D("AtropBond", <<1,2,3,4,5,6>>, 1), D("AtropBond", <<1,2,3,4,5,6>>, -1),
                  D("AtropBond", <<2,1,3,4,5,6>>, 1), D("AtropBond", <<5,6,4,3,2,1>>, 1) }
 FamEthene(kind) == { Ethene6(kind, le, d) : le \in [1..4 -> {1, 9}], d \in EtheneDescr }
+
+(* reaction: the central bond of the ethene skeleton is formed; its descriptor lives in a bond stereo  *)
+(* change (formed / fleeting), in several spellings, also with unspecified parity                    *)
+EtheneR(le, cd) ==
+   [Mk("SCRG", (3 :> 6) @@ (4 :> 6) @@ (1 :> le[1]) @@ (2 :> le[2]) @@ (5 :> le[3]) @@ (6 :> le[4]),
+       [EtheneBonds EXCEPT ![{3,4}] = Bd("formed")]) EXCEPT !.bch = ({3,4} :> cd)]
+PBn  == D("PlanarBond", <<1,2,3,4,5,6>>, NoPar)
+PBn2 == D("PlanarBond", <<5,6,4,3,1,2>>, NoPar)
+PBn3 == D("PlanarBond", <<2,1,3,4,6,5>>, NoPar)
+ABn  == D("AtropBond", <<6,5,4,3,2,1>>, NoPar)
+FamEtheneR == { EtheneR(le, cd) : le \in { <<1,9,1,9>>, <<1,9,1,17>>, <<1,1,9,17>> },
+                cd \in { ("formed" :> PBn), ("formed" :> PBn2), ("formed" :> PBn3), ("fleeting" :> ABn) @@ ("formed" :> PBn),
+                         ("formed" :> D("PlanarBond", <<1,2,3,4,5,6>>, 0)), ("formed" :> D("PlanarBond", <<6,5,4,3,2,1>>, 0)),
+                         ("formed" :> D("PlanarBond", <<1,2,3,4,6,5>>, 0)),
+                         ("fleeting" :> D("AtropBond", <<1,2,3,4,5,6>>, 1)) @@ ("formed" :> D("PlanarBond", <<1,2,3,4,5,6>>, 0)),
+                         ("fleeting" :> D("AtropBond", <<2,1,3,4,5,6>>, -1)) @@ ("formed" :> D("PlanarBond", <<2,1,3,4,6,5>>, 0)),
+                         ("fleeting" :> D("AtropBond", <<1,2,3,4,5,6>>, -1)) @@ ("formed" :> D("PlanarBond", <<1,2,3,4,5,6>>, 0)) } }
+(* static descriptors with unspecified parity in different spellings *)
+(* one class per skeleton: comparisons of unspecified descriptors of DIFFERENT classes are pinned by no property *)
+FamNoPar == { Ethene6("SMG", le, d) : le \in { <<1,9,1,9>>, <<1,9,1,17>> }, d \in { PBn, PBn2, PBn3 } }
+             \cup { Star5("SMG", le, d) : le \in { <<1,9,17,35>>, <<1,1,9,9>> },
+                     d \in { D("Tetrahedral", <<1,2,3,4,5>>, NoPar), D("Tetrahedral", <<1,5,3,2,4>>, NoPar),
+                              D("Tetrahedral", <<1,3,2,5,4>>, NoPar) } }
 
 TwoBonds == [b \in { {1,5}, {1,2}, {1,3}, {1,4}, {5,6}, {5,7}, {5,8} } |-> Bd("none")]
 TwoCentres(kind, l1, l2, p1, p2) ==   \* 2,3,4 on centre 1; 6,7,8 on centre 5
@@ -129,6 +158,9 @@ Family == CASE Fam = "alltet" -> AllPlace("SMG", "Tetrahedral", 6, <<1, 9, 17, 3
             [] Fam = "star5" -> FamStar5("SMG")
             [] Fam = "star5r" -> FamStar5("SCRG")
             [] Fam = "star4lp" -> FamStar4LP("SMG")
+            [] Fam = "lp2"    -> FamLP2("SMG")
+            [] Fam = "ethener" -> FamEtheneR
+            [] Fam = "nopar"  -> FamNoPar
             [] Fam = "ethene" -> FamEthene("SMG")
             [] Fam = "two"   -> FamTwo("SMG")
             [] Fam = "tbp"   -> FamTBP("SMG")
@@ -165,6 +197,11 @@ SingleUnitPair(g, h, S) ==
    /\ g.kind = "SMG" /\ S = {} /\ SingleUnit(g) /\ SingleUnit(h)
    /\ IsosL(g, h, g.el, h.el, FALSE, FALSE, FALSE) # {}     \* same constitution
 
+AllDescr(g) == { g.ast[k] : k \in DOMAIN g.ast } \cup { g.bst[k] : k \in DOMAIN g.bst }
+                \cup UNION { { g.ach[k][c] : c \in DOMAIN g.ach[k] } : k \in DOMAIN g.ach }
+                \cup UNION { { g.bch[k][c] : c \in DOMAIN g.bch[k] } : k \in DOMAIN g.bch }
+FullySpecified(g) == \A d \in AllDescr(g) : d.par # NoPar
+
 VARIABLES ph, i, j
 vars == <<ph, i, j>>
 Init == ph = "start" /\ i = 0 /\ j = 0
@@ -187,6 +224,8 @@ Emit ==
           LET g == FamSeq[i]  h == FamSeq[j]  S == Isos(g, h) IN
           PrintT("P|" \o JObj(<< JKV("fam", JStr(Fam)), JKV("i", JInt(i)), JKV("j", JInt(j)),
                                  JKV("isos", JSetArr({ MapJ2(g, f) : f \in S })),
+                                 JKV("spec", JBool(FullySpecified(g) /\ FullySpecified(h))),
+                                 JKV("respell", JBool(\E f \in S : IsRespelling(g, h, f))),
                                  JKV("sigeq", JBool(Sig(g) = Sig(h))),
                                  JKV("su", JBool(SingleUnitPair(g, h, S))),
                                  JKV("sigr", JBool(Sig(Reactant(g, FALSE)) = Sig(Reactant(h, FALSE)))),
